@@ -378,7 +378,48 @@ def body_noise(E, n):
     _judge(E, kind_out, out, BAD, E.no(BAD), 'noise')
 
 
-FUNCS = ['solver.solve', 'solver.OptimResults', 'params.ParameterList', 'params.check_integer', 'params.check_float',
+def body_growing_default(E, n, m, which):
+    """a legal growing.* option on an under-/over-determined problem: solve must get through the x0 block of the real solve_main
+    (where the default growing method is chosen once m is known) without raising"""
+    x0 = E.vec('x0_', n)
+    val = bool(E.is_true(E.bool('val')))
+    up = {}
+    if which in ('full', 'both'):
+        up['growing.full_rank.use_full_rank_interp'] = val
+    if which in ('perturb', 'both'):
+        up['growing.perturb_trust_region_step'] = (not val) if which == 'both' else val
+    reached = []
+
+    class ControllerStub(object):
+        def __init__(self, *a, **k):
+            reached.append(1)
+            raise Stop('controller')
+    E.patch('Controller', ControllerStub)
+    r = E.vec('r', m)
+    E.assume(E.all([r[j] * r[j] >= 1 for j in range(m)]))     # not already optimal at x0
+    bad = (which != 'both' and False) or (which == 'both' and False)
+    contradiction = (which == 'full' and False)
+    try:
+        soln = E.get('solve')(lambda x, *a: r, x0, rhobeg=E.const('0.5'), rhoend=E.const('0.001'), user_params=up, do_logging=False)
+        kind_out, out = 'result', soln
+    except Stop:
+        kind_out, out = 'proceeded', None
+    except Exception as e:     # noqa
+        kind_out, out = 'raised', e
+    # which=='full' with val True and which=='perturb' with val True contradict the other default only when both end up True
+    if kind_out == 'raised':
+        E.fail('growing-default:raises-' + type(out).__name__ + '[m%sn]' % ('<' if m < n else '>='), detail=str(out)[:200])
+    elif kind_out == 'result':
+        INPUT_ERROR = E.get('EXIT_INPUT_ERROR')
+        is_err = E.is_true(out.flag == INPUT_ERROR)
+        # the only rejected combination: both options on
+        both_on = (up.get('growing.full_rank.use_full_rank_interp', True) and up.get('growing.perturb_trust_region_step', False))
+        E.prove(bool(is_err) == bool(both_on), 'growing-default:only-the-contradictory-combination-is-rejected')
+    else:
+        E.prove(len(reached) == 1, 'growing-default:run-starts')
+
+
+FUNCS = ['solver.solve', 'solver.solve_main', 'solver.OptimResults', 'params.ParameterList', 'params.check_integer', 'params.check_float',
          'params.check_bool', 'controller.ExitInformation', 'util.apply_scaling']
 
 
@@ -406,6 +447,12 @@ def harnesses(tier, seed):
     for w in range(len(CONTRA)):
         hs.append(Harness("contradiction[%d]" % w, 'dfverif.checks.c07', 'body_contra', params=dict(n=1, which=w), cfg=cfg,
                           functions=FUNCS, bounds="both flags symbolic", assumptions=common, nproc=1))
+    for (n_, m_) in ((2, 1), (1, 2)):
+        for which in ('full', 'perturb', 'both'):
+            hs.append(Harness("growing-default[n=%d,m=%d,%s]" % (n_, m_, which), 'dfverif.checks.c07', 'body_growing_default',
+                              params=dict(n=n_, m=m_, which=which), cfg=core.Cfg(qtimeout_ms=20000, uflin=True), functions=FUNCS,
+                              bounds="n=%d, m=%d, the option(s) given with either boolean value" % (n_, m_),
+                              assumptions=["real solve and real solve_main up to the construction of the Controller (stubbed to end the path)"], nproc=1))
     hs.append(Harness("noise-levels", 'dfverif.checks.c07', 'body_noise', params=dict(n=1), cfg=cfg, functions=FUNCS,
                       bounds="levels symbolic reals, given or not", assumptions=common, nproc=1))
     return hs
